@@ -479,6 +479,11 @@ func (m *Machine) exec(f *frame, ip int, op Op, arg []byte) {
 		}
 		end := ip + int(le(arg))
 		if t.finally >= 0 {
+			// the end position is only stored here; it is validated when
+			// ENDFINALLY transfers control to it
+			if end < 0 || end > len(m.Script) {
+				m.Tag = "endtry-end-position-out-of-range"
+			}
 			t.state = sFinally
 			t.end = end
 			m.setIP(f, t.finally)
@@ -554,6 +559,8 @@ func (m *Machine) exec(f *frame, ip int, op Op, arg []byte) {
 		}
 		if n > 0 {
 			m.push(m.remove(n))
+		} else if len(m.stack) == 0 {
+			m.Tag = "roll-0-on-empty-stack" // n == 0 returns before the stack is looked at
 		}
 	case REVERSE3, REVERSE4, REVERSEN:
 		n := 3
@@ -709,11 +716,12 @@ func (m *Machine) exec(f *frame, ip int, op Op, arg []byte) {
 	case EQUAL, NOTEQUAL:
 		b := m.pop()
 		a := m.pop()
-		r, zone := equalItems(a, b)
+		r, zone, why := equalItems(a, b)
 		if zone {
 			discard("comparison-limit-zone")
 		}
 		if r == eqFault {
+			m.Tag = why
 			fault("comparison exceeds the limits")
 		}
 		m.push(mkBool((r == eqTrue) == (op == EQUAL)))
